@@ -117,7 +117,8 @@ def scenarios(tier, rng):
         lengths = list(range(0, 301)) + list(range(65400, 65701, 7)) + [65534, 65535, 65536, 65537, 70000]
         lengths += [rng.randrange(1 << 20) for _ in range(12)]
     else:
-        lengths = list(range(0, 70001)) + [rng.randrange(1 << 24) for _ in range(16)] + [1 << 20, (1 << 24) + 3]
+        lengths = (list(range(0, 4001)) + list(range(4001, 65200, 37)) + list(range(65200, 65900)) + list(range(65900, 70001, 37))
+                   + [rng.randrange(1 << 22) for _ in range(12)] + [1 << 20, (1 << 22) + 3])
     i = 0
     for n in lengths:
         i += 1
@@ -223,7 +224,7 @@ def run(ctx, only=None):
     return T.result(
         "API calls send/send_binary/send_bytes/send_text/ping/pong/send_close/close/send_frame over a simulated transport; "
         "quick: every payload length 0..300, 65400..65700 (step 7), 65534..65537, 70000 and random lengths < 2^20; "
-        "thorough: every length 0..70000 and random lengths < 2^24; opcodes, FIN, three key sources, bytes/bytearray, "
+        "thorough: every length 0..4000 and 65200..65900, every 37th length up to 70000, random lengths < 2^22; opcodes, FIN, three key sources, bytes/bytearray, "
         "trace on/off, short-write patterns, random Unicode text incl. astral planes, out-of-range close statuses. "
         "Each observation is decoded by the extracted RFC decoder (spec oracle) and, for payloads <= 300 bytes, compared "
         "with the extracted model. distinct = (api, opcode, fin, length, key kind, trace, accept pattern)",
